@@ -810,6 +810,7 @@ type PathCase struct {
 	Steps []Step   `json:"steps"`
 	Pre   [][]Step `json:"pre,omitempty"`
 	Pad   int      `json:"pad,omitempty"`
+	Mal   []int    `json:"mal,omitempty"` // malformed variants of this path, resolved right before it
 }
 
 // "anyroot": the value sits under the key "v" of a map[any]any that is the root DATA (no scope
@@ -867,6 +868,13 @@ func checkPath(c PathCase) error {
 	if len(c.Pre) > 0 {
 		tag += fmt.Sprintf(" (after %d partner paths, first %s)", len(c.Pre), describeSteps(c.Pre[0]))
 	}
+	for _, variant := range c.Mal {
+		bad := malformed(path, variant)
+		// result unasserted (a panic is a failure): the path has an unclosed bracket
+		_, _ = s.Resolve(bad)
+		_, _ = vuego.NewStack(map[string]any{"z": 1}).GetString(bad) // and on another stack
+		tag += fmt.Sprintf(" (after the malformed %q)", bad)
+	}
 	return checkReaders(tag, s, path, exp, out, 0)
 }
 
@@ -904,6 +912,12 @@ func classifyPath(c PathCase) (bool, []string) {
 	_, sok, exotic := spell("v", c.Steps)
 	if !sok {
 		cls["unspellable"] = true
+	}
+	if len(c.Mal) > 0 {
+		cls["after-malformed-path"] = true
+		for _, variant := range c.Mal {
+			cls[fmt.Sprintf("malformed-variant=%d", variant%malVariants)] = true
+		}
 	}
 	if c.Pad != 0 && len(c.Steps) > 0 {
 		cls[fmt.Sprintf("pad=%d", c.Pad)] = true
@@ -1079,7 +1093,7 @@ func TestProp(t *testing.T) {
 					}
 				}
 			}
-			if len(prefix) == 5 {
+			if len(prefix) == 5 || (renders == 3 && len(prefix) == run.Pick(4, 5)) {
 				return true
 			}
 			for _, op := range preludeAlphabet(len(prefix)) {
@@ -1095,7 +1109,7 @@ func TestProp(t *testing.T) {
 		}
 	}
 	if preok {
-		rec.Exhaustive(fmt.Sprintf("all op sequences of length 1..5 over {Push(nil), Set, Pop, Copy+use, swap} after 1 and after 3 engine renders with a multi-iteration v-for (%d histories)", pren))
+		rec.Exhaustive(fmt.Sprintf("all op sequences of length 1..5 over {Push(nil), Set, Pop, Copy+use, swap} after 1 engine render and of length 1..%d after 3 renders with a multi-iteration v-for (%d histories)", run.Pick(4, 5), pren))
 	}
 
 	// ---- family 2, exhaustive: every path of <= 3 (quick) / 4 (thorough) steps over the zoo
